@@ -437,6 +437,10 @@ func runC14(h *hz.H) {
 	}
 	var bases []baseS
 	var names []string
+	baseCap := 500
+	if os.Getenv("VERIF_LITE") != "" {
+		baseCap = 150
+	}
 	for _, md := range types {
 		sp := enum.NewSpace(md, enum.Opts{Top: enum.Reduced, MaxDepth: 2})
 		n0 := len(bases)
@@ -444,7 +448,7 @@ func runC14(h *hz.H) {
 		sp.ForEach(1, 1, func(c enum.Case) bool {
 			d := sp.BuildDyn(c)
 			b, err := proto.MarshalOptions{Deterministic: true}.Marshal(d.Interface())
-			if err == nil && !seen[string(b)] {
+			if err == nil && !seen[string(b)] && len(b) <= baseCap {
 				seen[string(b)] = true
 				bases = append(bases, baseS{md, b, sp.Label(c)})
 			}
@@ -502,7 +506,8 @@ func runC14(h *hz.H) {
 			for pos := 0; pos <= len(l.recs); pos++ {
 				for ai, a := range alpha {
 					pts = append(pts, point{li, pos, a})
-					if ai < two || ai == 4 && two > 2 {
+					// pairs: over the first 8 levels and the last one (long lists have one level per element)
+					if (ai < two || ai == 4 && two > 2) && (li < 8 || li == len(lv)-1) {
 						ptsSmall = append(ptsSmall, point{li, pos, a})
 					}
 				}
@@ -521,7 +526,7 @@ func runC14(h *hz.H) {
 		for _, u := range ua {
 			setUnknownRoundTrip(h, bs.md, bs.bytes, bs.label, u)
 		}
-		if it.(int)%8 == 0 || len(bs.bytes) < 4 {
+		if it.(int)%8 == 0 || len(bs.bytes) == 0 {
 			// ordered pairs (longer-then-shorter and shorter-then-longer both occur), nil as the second
 			for _, u1 := range ua {
 				for _, u2 := range append(append([][]byte(nil), ua...), nil) {
@@ -533,6 +538,6 @@ func runC14(h *hz.H) {
 		h.Counter("nesting_levels_injected_into", int64(len(lv)))
 		_ = levelShapes
 	})
-	h.Rep.Rule = "base streams = reference encodings of every <=1-slot value (reduced alphabet, nesting depth 2) + every single record of the C03 alphabet, per pulsar type; each is parsed with the schema into nesting levels (top, singular message, list element, map value, oneof member); ONE unknown record from that level's unknown alphabet at EVERY record boundary of EVERY level, and every PAIR of injections over a reduced alphabet; DiscardUnknown off and on; plus SetUnknown/GetUnknown round trips and every ordered pair history SetUnknown-or-decode(u1); keep GetUnknown; SetUnknown(u2) on every 8th base stream; all cases non-trivial; distinct = hash(type, injected stream)"
+	h.Rep.Rule = "base streams = reference encodings (<= 500 bytes) of every <=1-slot value (reduced alphabet, nesting depth 2) + every single record of the C03 alphabet, per pulsar type; each is parsed with the schema into nesting levels (top, singular message, list element, map value, oneof member); ONE unknown record from that level's unknown alphabet at EVERY record boundary of EVERY level, and every PAIR of injections over a reduced alphabet (first 8 levels and the last one of long lists); DiscardUnknown off and on; plus SetUnknown/GetUnknown round trips and every ordered pair history SetUnknown-or-decode(u1); keep GetUnknown; SetUnknown(u2) on every 8th base stream; all cases non-trivial; distinct = hash(type, injected stream)"
 	h.Rep.Assumptions = []string{"dynamicpb (protobuf-go v1.34.0) is the reference for where unknown records are stored and how they are re-emitted", "unknown records injected inside map *entries* (not map values) are C03's business: the reference drops them"}
 }
